@@ -339,3 +339,7 @@ def replay_custom(rec):
         return 1
     print("REPLAY: no violation")
     return 0
+
+
+def dist_scenarios(seed, tier):
+    return weight_scenarios(seed, tier)
